@@ -278,25 +278,59 @@ func exprChildren(e b6.Expression) []b6.Expression {
 	return nil
 }
 
-// opener gives back the opening delimiters the parser leaves out of a span: a lambda's `{`, a query's `[`; a node
-// that starts with such a node (a lambda without parameters starts with its body, a pipeline with its left-hand side,
-// a call with its function) starts inside that node's delimiter, too.
-func opener(e b6.Expression) string {
+// opener gives back the opening delimiters the parser leaves out of a span: a lambda's `{`, a query's `[` (and one
+// more `[` for every bracketed operand the query text starts inside of); a node that starts with such a node (a
+// lambda without parameters starts with its body, a pipeline with its left-hand side, a call with its function)
+// starts inside that node's delimiters, too.
+func (c *spanChecker) opener(e b6.Expression) string {
 	switch x := e.AnyExpression.(type) {
 	case b6.LambdaExpression:
 		if len(x.Args) == 0 {
-			return "{-> " + opener(x.Expression)
+			return "{-> " + c.opener(x.Expression)
 		}
 		return "{"
 	case b6.QueryExpression:
-		return "["
+		n := 0
+		if e.Begin >= 0 && e.Begin < e.End && e.End <= len(c.text) {
+			n = len(unmatchedClosers(c.text[e.Begin:e.End]))
+		}
+		return strings.Repeat("[", 1+n)
 	case b6.CallExpression:
 		if x.Pipelined && len(x.Args) > 0 {
-			return opener(x.Args[0])
+			return c.opener(x.Args[0])
 		}
-		return opener(x.Function)
+		return c.opener(x.Function)
 	}
 	return ""
+}
+
+// unmatchedClosers lists the closing delimiters of s (outside string literals) that have no opener in s
+func unmatchedClosers(s string) []byte {
+	var out []byte
+	depth := 0
+	i := 0
+	for i < len(s) {
+		switch s[i] {
+		case '"':
+			i++
+			for i < len(s) && s[i] != '"' {
+				if s[i] == '\\' {
+					i++
+				}
+				i++
+			}
+		case '(', '{', '[':
+			depth++
+		case ')', '}', ']':
+			if depth > 0 {
+				depth--
+			} else {
+				out = append(out, s[i])
+			}
+		}
+		i++
+	}
+	return out
 }
 
 // closers for the delimiters left open in s (outside string literals), innermost first
@@ -384,7 +418,10 @@ func (c *spanChecker) check(e b6.Expression) *failure {
 		}
 	}
 	// the span covers the text the node came from: that text (re-delimited) parses to an equivalent node
-	sub := opener(e) + c.text[e.Begin:e.End]
+	sub := c.opener(e) + c.text[e.Begin:e.End]
+	for _, cl := range unmatchedClosers(sub) { // a span that starts inside a parenthesised group
+		sub = string(map[byte]byte{')': '(', '}': '{', ']': '['}[cl]) + sub
+	}
 	sub += balance(sub)
 	again, err := api.ParseExpression(sub)
 	if err != nil {
